@@ -4,8 +4,11 @@ import vpcheck as V
 LEVEL_TEXT = ("bounded symbolic model checking of int.cc lowered from clang IR: every operator is checked for ALL pairs of "
               "(64-bit payload, signedness) operands against an exact 128-bit oracle; no loops in the code under test")
 
+MULT = ['c08_mul_any', 'c08_mul_smallA', 'c08_mul_smallB', 'c08_mul_pow2', 'c08_div_any', 'c08_div_smallB', 'c08_div_smallQ',
+        'c08_mod_any', 'c08_mod_smallB', 'c08_mod_smallQ']
+
 def modules(ctx):
-    ents = ['c08_add', 'c08_sub', 'c08_neg', 'c08_cmp', 'c08_mul', 'c08_div', 'c08_mod']
+    ents = ['c08_add', 'c08_sub', 'c08_neg', 'c08_cmp'] + MULT
     m = V.Module(ctx, 'c08', ['int.cc'], 'c08.cc', ents)
     return {'c08': m}
 
@@ -18,7 +21,7 @@ def run(ctx):
                         'std::domain_error modelled by stubs/cxxrt.c (object = vptr + message copy)',
                         'operator new never fails']
     jobs = []
-    for e, to in [('c08_add', 300), ('c08_sub', 300), ('c08_neg', 300), ('c08_cmp', 300), ('c08_mul', 600), ('c08_div', 600), ('c08_mod', 600)]:
+    for e, to in [('c08_add', 300), ('c08_sub', 300), ('c08_neg', 300), ('c08_cmp', 300)] + [(x, 300) for x in MULT if not x.endswith('_any')]:
         if ctx.only and e not in ctx.only:
             continue
         jobs.append(lambda e=e, to=to: V.run_entry(ctx, m, e, 4, timeout=to, bounds='all 2^130 operand pairs'))
